@@ -4,3 +4,13 @@ CLAIMED["C08"] = {
 }
 for p in ["C01","C02","C03","C04","C05","C06","C07","C09","C10","C11","C12","C13","C14","C15","C16","C17","C18","C19","C20"]:
     NA[p] = "check not yet built in this revision (see DESIGN.md)"
+CLAIMED["C13"] = {
+    "text": "Bounded symbolic model checking of the real WatermarkedStream/WatermarkGenerator/LateDataHandler: K events (quick 5, thorough 8 and 12) with ANY u64 timestamps in any order, symbolic watermark strategy (bounded out-of-order with any delay, monotonic, periodic under an arbitrary non-decreasing clock) and symbolic late-data strategy; monotonicity, the max_seen-delay formula, lateness test, exactly-once accounting and statistics are SMT obligations against an independent model.",
+    "note": "Trusted: rsym interpreter + library model (validated on the repo's unit tests), z3, reference model. Bounded in the number of events; payloads empty.",
+}
+CLAIMED["C12"] = {
+    "text": "Bounded symbolic model checking of TimeWindow::record (sliding contents vs. reference, symbolic duration and retention cap, any arrival order), WindowManager::process_event and WindowedStream::new (tumbling: each event in exactly one aligned window, concrete window lengths) and the window aggregates (count/sum/average/min/max vs. an independent fold over candidate values).",
+    "note": "Timestamps below 2^62; tumbling window lengths concrete per run; aggregates over candidate value sets; StreamAlphaNode and sliding WindowedStream construction outside. Trusted: rsym + library model, z3, reference models.",
+}
+for _p in ("C12", "C13"):
+    NA.pop(_p, None)
